@@ -139,7 +139,7 @@ Print Assumptions C17_route_lookup.
 
 (** Widening: the edges of the domain.  When all keys fit into one shard the result is that one
     shard (no order hypothesis needed); for maxSize = 1 the relation [shard_spec] is a function --
-    every key is its own shard with the whole key as prefix -- so there the checker admits exactly
+    every key is its own shard with the whole key as prefix -- so there the checker accepts exactly
     one output. *)
 Theorem C17_one_shard : forall keys maxSize,
   keys <> [] -> keys_ok keys -> zlen keys <= maxSize ->
